@@ -1892,6 +1892,28 @@ fn gen_c17(r: &mut Rng, t: Tier, job: u64) -> Plan {
     for _ in 0..nops {
         let s = r.usize_below(ns);
         let (id, np, types) = &mut st[s];
+        if r.chance(1, 12) {
+            // the statement is closed (long data may be pending: it dies with the statement)
+            // and a new one is prepared in its place under another id
+            cmds.push(Cmd {
+                seq: 0,
+                kind: CmdKind::Close(*id),
+                act: Act::None,
+            });
+            *id = 100 + r.below(1000) as u32 * 3 + s as u32 % 3;
+            *np = 1 + r.usize_below(4);
+            *types = None;
+            cmds.push(Cmd {
+                seq: 0,
+                kind: CmdKind::Prepare(query_text(r)),
+                act: Act::Prepare(PrepAct::Reply {
+                    id: *id,
+                    params: (0..*np).map(|_| gen_col_text(r)).collect(),
+                    cols: vec![],
+                }),
+            });
+            continue;
+        }
         if r.chance(1, 9) {
             // the shim hands the same id out again (same or another parameter count) while long
             // data may be pending: the new statement starts afresh
